@@ -77,6 +77,8 @@ type YAMLStyleStats struct {
 	// yaml.v2 reads the file differently with it (a clip / keep block scalar at the end of the document).
 	Tail         string
 	TailFallback bool
+	// Anchors says what was done with Layout.YAMLAnchors (nil: no plan).
+	Anchors *YAMLAnchorStats
 }
 
 // mapDoc rebuilds the document v with every string value replaced by f(path, value).
@@ -185,6 +187,21 @@ func RenderYAMLStyled(m Model) ([]byte, YAMLStyleStats) {
 }
 
 func renderYAMLStyled(m Model) ([]byte, YAMLStyleStats) {
+	if m.Layout.YAMLAnchors == nil {
+		return renderYAMLStyledPlain(m)
+	}
+	// user maps written through anchors and merge keys (yamlanchor.go)
+	text, st, ok := renderYAMLAnchored(m)
+	if ok {
+		return text, st
+	}
+	m.Layout.YAMLAnchors = nil
+	text, plain := renderYAMLStyledPlain(m)
+	plain.Anchors = st.Anchors
+	return text, plain
+}
+
+func renderYAMLStyledPlain(m Model) ([]byte, YAMLStyleStats) {
 	var st YAMLStyleStats
 	base := RenderYAML(m)
 	if len(m.Layout.YAMLStyles) == 0 {
